@@ -59,3 +59,15 @@ package types
 //@   invariant true
 //@ loop #7
 //@   invariant true
+
+// C05 (an asset is priced with the feed of the token it is bonded to): a token is the asset's token only when the asset id
+// is EQUAL to one of the comma-separated ids bonded to it - the returned index was found by comparing the asset id with
+// an element of the split list, not with the list as a whole.
+//@ func (Params).GetTokenIDFromAssetID
+//@   flag noframe
+//@   flag pure=Split
+//@   ensures[C05.gtia.exact] r0 != 0 ==> defined(res_Split_0)
+//@ loop #1
+//@   invariant true
+//@ loop #2
+//@   invariant true
